@@ -25,15 +25,28 @@ MANIFEST = dict(
         "dataset token theorems), remora::vector and remora::matrix load correctly into ANY old object (vecLoad_roundtrip, "
         "matLoad_roundtrip). The correspondence compares the payload token stream of the real write (recording archive) with the "
         "generated encoder token by token, and runs 72 of the 108 classes (all dataset kinds incl. weighted and DataView-converted, "
-        "20 model classes incl. trainer-produced, 13 kernel classes incl. composites, kernel expansions dense/sparse/composite, "
-        "18 optimizers after every step index 0..6 (thorough 0..25)) through write -> read into a used target -> read another state -> "
-        "read twice -> second generation -> byte-equal rewritten archive, in polymorphic text and binary archives."),
+        "21 model classes incl. trainer-produced, 13 kernel classes incl. composites, kernel expansions dense/sparse/composite, "
+        "all 22 optimizer and all 19 operator classes, result sets, decompositions, compressed vectors; optimizers after every step "
+        "index 0..6 (thorough 0..25)) through write -> read into a used target -> read another state -> read twice -> second "
+        "generation -> byte-equal rewritten archive, in polymorphic text and binary archives — 100 of the 109 classes. "
+        "Object sharing: several objects that share batch objects in ONE archive (labels = inputs, a data set and its copy, a "
+        "subset, a set appended to itself, two labelled sets with the same inputs; dense and sparse; text and binary) are modelled "
+        "with pointer identity (writePtrs/readPtrs/writeConts/readConts: an object is written once, later occurrences are back "
+        "references) and proved to round-trip with values AND sharing pattern preserved for every sharing pattern "
+        "(readPtrs_writePtrs, shared_values, shared_identity, readConts_writeConts); the recording archive emits the pointer tokens "
+        "and the streams are compared. The dependency lists of 23 classes are cross-checked against clang's AST member references. "
+        "If the translator rejects the source or an obligation breaks, the harness still runs alone with its oracle (core.oracle_only)."),
   note=TRUST + "boost.serialization (bytes, pointer tracking, its bookkeeping tokens) is not modelled; the type table CODEC_CLASSES (which "
        "codec a C++ member type denotes) and the three pinned serialize bodies (vector, matrix, compressed_matrix_impl: modelled by "
        "hand, pinned by text) are reviewed knowledge; that a member's VALUE determines behaviour the way the C++ uses it is exercised "
-       "by the harness on the 72 round-tripped classes only — the evidence lists the 36 classes not round-tripped (hypervolume and "
-       "indicator operators, GridSearch family, MklKernel, GaussianTaskKernel, OneVersusOneClassifier (needs export registration), "
-       "OptimizationTrainer, result sets, decompositions, triangular_matrix, compressed_vector/MOEAD/RVEA while findings F-C18-2/3 are open); "
+       "by the harness on the 100 round-tripped classes only. Not round-tripped (9): AbstractModel (abstract base, empty default read/write, "
+       "reached through every model); CSvmDerivative (read/write deliberately empty: a cache over an external KernelExpansion, not "
+       "serializable by design); triangular_matrix (its header includes a file that does not exist: cannot be compiled); "
+       "OptimizationTrainer (archives nothing of its own, only external pointers to loss/optimizer/stopping criterion); "
+       "BipolarLayer, GaussianTaskKernel + MultiTaskSample, MklKernelWrapper, ResultTable: constructible, not brought in for lack "
+       "of time (BipolarLayer is field-for-field BinaryLayer without base rate; the MKL/multi-task kernels need tuple/dataset rigs). "
+       "Pointer tracking of boost is modelled for objects saved through pointers only (by-value tracked std::vectors get no id token; "
+       "a by-value back reference shows up as token R and never occurs in an intact tree); "
        "allow-list entries marked NOTED-unprobed (BinaryLayer::m_baseRate, DropoutLayer, CMAChromosome::m_lastZ) are not claimed.",
   technique="Lean 4 proof over field lists, dependency lists and token codecs regenerated from the C++ by a translator + differential "
             "round-trip harness with a token-recording archive (ASan/UBSan)",
@@ -62,6 +75,17 @@ OBJECTS = {
     "HardClusteringModel": "ClusteringModel,AbstractClustering,Centroids", "SoftClusteringModel": "ClusteringModel,AbstractClustering,Centroids",
     "NearestNeighborModel": "BaseNearestNeighbor", "Ensemble": "EnsembleImpl,LinearModel",
     "BinaryRBM": "RBM,BinaryLayer", "GaussianBinaryRBM": "RBM,GaussianLayer,BinaryLayer",
+    "BinaryRBM-baserate": "RBM,BinaryLayer", "OneVersusOneClassifier": "OneVersusOneClassifier,Classifier,LinearModel",
+    # containers, result sets, operators, grid searches (serializable on their own)
+    "compressed_vector": "compressed_vector,BaseSparseVector,VectorStorage",
+    "cholesky_decomposition": "cholesky_decomposition,matrix", "symm_eigenvalue_decomposition": "symm_eigenvalue_decomposition,matrix,vector",
+    "KeyValuePair": "KeyValuePair", "ResultSet": "ResultSet", "ValidatedSingleObjectiveResultSet": "ValidatedSingleObjectiveResultSet,ResultSet",
+    "TypedFlags": "TypedFlags", "MultiNomialDistribution": "MultiNomialDistribution",
+    "AdditiveEpsilonIndicator": "AdditiveEpsilonIndicator", "CrowdingDistance": "CrowdingDistance", "NSGA3Indicator": "NSGA3Indicator",
+    "HypervolumeCalculator": "HypervolumeCalculator,HypervolumeApproximator",
+    "HypervolumeContribution": "HypervolumeContribution,HypervolumeContributionApproximator",
+    "BitflipMutator": "BitflipMutator", "UniformCrossover": "UniformCrossover", "UniformCrossover-default": "UniformCrossover", "PartiallyMappedCrossover": "PartiallyMappedCrossover",
+    "GridSearch": "GridSearch", "NestedGridSearch": "NestedGridSearch", "PointSearch": "PointSearch",
     # trainer-produced models
     "trained-Normalizer": "Normalizer", "trained-LDA": "Classifier,LinearModel", "trained-LinearRegression": "LinearModel",
     # kernels
@@ -171,12 +195,15 @@ FINDING_OF = {"ModelKernel": "F7-ModelKernel-read-signature",
               "ConcatenatedModel": "F10-ConcatenatedModel-read-into-copy",
               "ElitistCMA": "F-C18-4-ElitistCMA-best-not-archived",
               "SubrangeKernel": "F-C18-5-SubrangeKernel-subkernels-not-archived"}
+FINDING_LABEL = {"BinaryRBM-baserate": "F-C18-6-BinaryLayer-baserate-not-archived",
+                 "UniformCrossover-default": "F-C18-7-UniformCrossover-default-ctor-throws",
+                 "OneVersusOneClassifier": "F-C18-8-OneVersusOneClassifier-unregistered-class"}
 
 
 def classify(ops, res):
     t = ops[-1].split()
     base = t[1].split("-")[0] if t[0] == "obj" else t[1]
-    feat = FINDING_OF.get(base, base)
+    feat = FINDING_LABEL.get(t[1], FINDING_OF.get(base, base)) if t[0] == "obj" else base
     what_in = " ".join(t[:8])
     if res.crash:
         m = re.search(r"(?:ERROR|SUMMARY): AddressSanitizer: (\S+)|runtime error: ([^\n]*)", res.stderr)
@@ -222,6 +249,28 @@ def probe(ctx, name):
            "-I" + os.path.join(core.REPO, "include"), os.path.join(core.VERIF, "harness", "c18_probe.cpp")]
     ok = subprocess.run(cmd, stdout=subprocess.DEVNULL, stderr=subprocess.DEVNULL).returncode == 0
     open(key, "w").write("ok" if ok else "fails")
+    return ok
+
+
+def deps_crosscheck(ctx):
+    """T3b: behaviour-dependency lists of the regex reader vs clang's AST member references (cached by source hash)"""
+    import hashlib, importlib.util
+    spec = importlib.util.spec_from_file_location("sdc", os.path.join(core.VERIF, "translate", "serial_deps_clang.py"))
+    sdc = importlib.util.module_from_spec(spec); spec.loader.exec_module(sdc)
+    h = hashlib.sha256()
+    for f in [os.path.join(core.REPO, rel) for rel, _ in sdc.TARGETS] + \
+             [os.path.join(core.VERIF, "translate", n) for n in ("serial_fields.py", "serial_deps_clang.py", "serial_transient.json")]:
+        h.update(core.file_sha(f).encode())
+    d = os.path.join(core.CACHE, "c18probe"); os.makedirs(d, exist_ok=True)
+    key = os.path.join(d, "deps-" + h.hexdigest()[:16])
+    if os.path.exists(key):
+        ctx.log("serial_deps_clang.py (cached): " + open(key).read().strip())
+        ctx.cov["deps_clang_crosscheck"] = open(key).read().strip()
+        return True
+    ok = ctx.translate("serial_deps_clang.py", "--inc", ctx.shark_h())
+    if ok:
+        line = [l for l in ctx.log_lines if "clang cross-check:" in l][-1].split("clang cross-check:")[-1].strip()
+        open(key, "w").write(line); ctx.cov["deps_clang_crosscheck"] = line
     return ok
 
 
@@ -272,6 +321,7 @@ def run(ctx):
                         "function via init(), random number generator) and configured by the same constructor arguments — allow-list categories external/config",
                         "optimizer state is restored into an optimizer that was init()-ialised on the same objective (from another point, and stepped)"]
     ok_t = translate(ctx)
+    ok_t = deps_crosscheck(ctx) and ok_t
     ctx.prove(["SharkVerif.Gen.Serial", "SharkVerif.Gen.SerialCodec", "SharkVerif.Props.C18"])
     if not ctx.quick:
         ctx.leanchecker(["SharkVerif.Props.C18"])
